@@ -114,6 +114,22 @@ def run(ctx):
             for ci in range(ncalls):
                 k = rng.choice([1, 1, 1, 2, 3, 5, 8, 12, 25])
                 reqs = [logixreq.gen_request(sc.prj, rng, sc.conn_size) for _ in range(k)]
+                dense = sc.large and sc.fw >= 21 and not sc.micro   # symbol-instance addressing on a 4000-byte connection: ~12 bytes per request
+                if ci == ncalls - 1 and (dense or pi % 3 == 0):
+                    # "any number of tags in one call": hundreds of small requests - more than 255 services in one Multiple Service
+                    # Packet where requests are dense, many packets on a 500-byte connection
+                    k = rng.choice([300, 520, 700]) if dense else rng.choice([130, 257, 300, 520])
+                    reqs = []
+                    for _ in range(20 * k):
+                        r_ = logixreq.gen_request(sc.prj, rng, sc.conn_size)
+                        if r_.nbytes() <= 8 and (not dense or (r_.tag.program is None and r_.text == r_.tag.full_name)):
+                            reqs.append(r_)
+                            if len(reqs) == k:
+                                break
+                    k = len(reqs)
+                    if not reqs:
+                        continue
+                    res.count("bulk-read-calls")
                 if k > 2 and rng.random() < 0.3:
                     reqs[rng.randrange(k)] = reqs[0]  # duplicates
                 before = len(sc.dev.reads_executed)
